@@ -316,3 +316,8 @@ def run(ctx):
                ('a return of the hook is reachable WITHOUT Workspace::create_checkpoint: the request is answered with something other than a snapshot taken now (a reused / cached checkpoint names an older state — rewinding to it does not restore the bytes the file had before this edit)' if cc9 else 'the hook never calls Workspace::create_checkpoint'),
                line=cc9[0].line if cc9 else h.line)
     ctx.floor('C14.9', 'workspace-backed CheckpointHook::create implementations', n9, 1)
+
+    # ---------------------------------------------------------------- C14.10
+    from .c05 import tmp_unique_in_workspace
+    n10 = tmp_unique_in_workspace(ctx, 'C14.10', 'the automatic checkpoint covers only the path the tool was given, so a rewind cannot bring it back.')
+    ctx.floor('C14.10', 'tmp + rename pairs in rip-workspace / rip-tools', n10, 1)
